@@ -63,6 +63,8 @@ def evaluate_tls(spec):
                 material[srv].append(rec)
         for srv, msg in conn.fin_plain.items():
             material[srv].append(msg)
+        if any(tag == "HREQ" for _, _, tag in conn.events):
+            material[True].append(b"\x00\x00\x00\x00")       # the plaintext of an (encrypted) HelloRequest is handshake material of the server
         for d, pl in extras:
             if not any(pl in mat for mat in material[d]):
                 sig = "tls: -a adds bytes that are neither handshake, alert nor change-cipher-spec material of that direction"
